@@ -563,6 +563,17 @@ func TestVerifC05Cache(t *testing.T) {
 			}
 			return pods[u]
 		}
+		pickR := func() int { // mostly a reservation that is in the cache
+			if len(cache.reservationInfos) > 0 && r.Chance(6, 7) {
+				us := make([]int, 0, 4)
+				for u := range cache.reservationInfos {
+					us = append(us, c05UID(u))
+				}
+				sort.Ints(us)
+				return us[r.Intn(len(us))]
+			}
+			return r.Range(1, 4)
+		}
 		steps := r.Range(4, 22)
 		if h.Tier == "thorough" && r.Chance(1, 4) {
 			steps = r.Range(20, 60)
@@ -626,7 +637,7 @@ func TestVerifC05Cache(t *testing.T) {
 				c05DumpAndCheck(h, cache, objs)
 				muts++
 			case k < 50: // assume / add pods
-				ru := r.Range(1, 4)
+				ru := pickR()
 				if r.Chance(1, 15) {
 					ru = 9 // unknown reservation
 				}
@@ -663,7 +674,7 @@ func TestVerifC05Cache(t *testing.T) {
 				c05DumpAndCheck(h, cache, objs)
 				muts++
 			case k < 60: // forget / delete pods
-				ru := r.Range(1, 4)
+				ru := pickR()
 				np := 1
 				if r.Chance(1, 6) {
 					np = 2
@@ -730,7 +741,7 @@ func TestVerifC05Cache(t *testing.T) {
 				case 1:
 					nw.term = true
 				case 2, 3:
-					nw.rAlloc = r.Range(1, 4)
+					nw.rAlloc = pickR()
 					nw.node = 1
 				case 4:
 					nw.rAlloc = 0
@@ -759,7 +770,7 @@ func TestVerifC05Cache(t *testing.T) {
 				c05DumpAndCheck(h, cache, objs)
 				muts++
 			case k < 94: // restricted fit query
-				ru := r.Range(1, 4)
+				ru := pickR()
 				var q, pre [c05D]int64
 				ri := cache.reservationInfos[types.UID(strconv.Itoa(ru))]
 				for d := 0; d < c05D; d++ {
@@ -841,7 +852,11 @@ func TestVerifC05Cache(t *testing.T) {
 							used = 0
 						}
 						if used+q[d] > c05Val(d, alloc)-c05Val(d, inner) {
-							h.Fail("C05:fit-overcommit", "reservation %d dim %d: assigned %d - preemptible %d + request %d > allocatable %d - reserved %d but the pod was let in",
+							fp := "C05:fit-overcommit"
+							if c05Val(d, ri.Allocated) != sum { // downstream of an already reported ledger drift
+								fp = "C05:fit-overcommit-after-ledger-drift"
+							}
+							h.Fail(fp, "reservation %d dim %d: assigned %d - preemptible %d + request %d > allocatable %d - reserved %d but the pod was let in",
 								ru, d, sum, pre[d], q[d], c05Val(d, alloc), c05Val(d, inner))
 						}
 					}
@@ -853,7 +868,7 @@ func TestVerifC05Cache(t *testing.T) {
 					}
 				}
 			default: // nominate gate
-				ru := r.Range(1, 4)
+				ru := pickR()
 				h.Op("nom %d", ru)
 				h.Tag("op:nom")
 				ri := cache.getReservationInfoByUID(types.UID(strconv.Itoa(ru)))
